@@ -43,6 +43,8 @@ def run(project, rep):
     rep.run(Z.z_r3_writer_shape, project, rep)
     rep.run(Z.z_r4_conversion, project, rep)
     rep.run(Z.z_r5_offset_sign, project, rep)
+    rep.run(Z.z_r6_carrier_date, project, rep)
+    rep.run(Z.z_r7_aware_values_kept, project, rep)
     from .. import rules_header as H
     rep.rule("W-R8", "the header written for a version is of the kind the reader expects and the body is decoded with the codec the header declares (B-R1, B-R3, H-R2, H-R3)")
     rep.run(H.b_rules, project, rep)
